@@ -189,6 +189,12 @@ SyncOutput(src) ==
            RECURSIVE Cut(_)
            Cut(k) == IF k > Len(sc) THEN <<>> ELSE IF sc[k].k \in {"e", "c"} THEN << <<sc[k].k, sc[k].v>> >> ELSE << <<sc[k].k, sc[k].v>> >> \o Cut(k + 1)
        IN Cut(1)
+\* the shared source itself terminated before stimulus i (a hot source was sent a terminal; a synchronous one ends with its script)
+SrcEnded(tr, i, src, id) ==
+  \/ src.op = "from_iter"
+  \/ (src.op = "cold" /\ \E k \in 1..Len(src.scripts[1]) : src.scripts[1][k].k \in {"e", "c"})
+  \/ \E j \in 1..(i - 1) : tr[j].st.k = "emit" /\ tr[j].st.a = id /\ tr[j].st.e \in {"e", "c"}
+                           /\ \E q \in 1..Len(tr[j].obs) : tr[j].obs[q].o = "probe" /\ tr[j].obs[q].k = "issub" /\ tr[j].obs[q].v = 1
 C13verdict(tr, root, c) ==
   IF ~(root.op = "conn" /\ Len(c.conn) >= 1 /\ ~HasReact(c) /\ AllFinOk(tr)) THEN "na"
   ELSE LET kind == c.conn[1].kind
@@ -198,8 +204,11 @@ C13verdict(tr, root, c) ==
            f == Flat(tr)
            connected(i) == \E j \in 1..i : tr[j].st.k = "connect"
            \* stimuli at which the single source subscription must have been released: publish -> disconnect; others -> last subscriber left
-           released(i) == IF kind = "publish" THEN tr[i].st.k = "disconnect"
-                          ELSE tr[i].st.k = "unsub" /\ LiveAfter(tr, i) = {} /\ LiveAfter(tr, i - 1) # {}
+           \* (... or the source ended its subscription itself by a terminal)
+           released(i) == \/ (tr[i].st.k = "emit" /\ tr[i].st.a = id /\ tr[i].st.e \in {"e", "c"}
+                               /\ \E j \in 1..Len(tr[i].obs) : tr[i].obs[j].o = "probe" /\ tr[i].obs[j].k = "issub" /\ tr[i].obs[j].v = 1)
+                          \/ IF kind = "publish" THEN tr[i].st.k = "disconnect"
+                             ELSE tr[i].st.k = "unsub" /\ LiveAfter(tr, i) = {} /\ LiveAfter(tr, i - 1) # {}
        IN IF (/\ (id # 0 =>
                    \* the source is subscribed only when the statement says so ...
                    /\ (\A i \in 1..n : SubsIn(tr, i, id) > 0 =>
@@ -208,7 +217,10 @@ C13verdict(tr, root, c) ==
                    /\ (\A i \in 1..n : SubsIn(tr, i, id) <= 1)
                    /\ (\A i, j \in 1..n : (i < j /\ SubsIn(tr, i, id) > 0 /\ SubsIn(tr, j, id) > 0) => \E k \in i..(j - 1) : released(k))
                    \* ref_count / replay subscribe the source when the first subscriber arrives
-                   /\ (kind # "publish" => \A i \in 1..n : (tr[i].st.k = "sub" /\ LiveAfter(tr, i - 1) = {} /\ ~\E j \in 1..(i - 1) : SubsIn(tr, j, id) > 0) => SubsIn(tr, i, id) = 1)
+                   \* (ref_count connects again for every subscriber that finds nobody there, as long as the source itself has not
+                   \*  terminated - the statement is silent about a terminated source; replay must NOT re-run the source: "each item once")
+                   /\ (kind # "publish" => \A i \in 1..n : (tr[i].st.k = "sub" /\ LiveAfter(tr, i - 1) = {}
+                                                            /\ (IF kind = "replay" THEN ~\E j \in 1..(i - 1) : SubsIn(tr, j, id) > 0 ELSE ~SrcEnded(tr, i, src, id))) => SubsIn(tr, i, id) = 1)
                    /\ (kind = "publish" => \A i \in 1..n : tr[i].st.k = "connect" => SubsIn(tr, i, id) = 1)
                    \* releasing stops the source: from then on every attempt of the source sees is_subscribed() = false
                    /\ (\A i \in 1..n : released(i) => \A q \in 1..Len(f) : (f[q].i > i /\ IsAttempt(f[q]) /\ f[q].e.u = id /\ f[q].e.v = 1) => \E k \in (i + 1)..f[q].i : SubsIn(tr, k, id) > 0))
